@@ -17,12 +17,23 @@ RULE = ('one run = a seeded universe (bases, several versions per id, extensions
         'digests; non-trivial = at least one successful removal and two distinct store states')
 
 
+def build_big(seed):
+    rng = subseed(seed, 'universe-big')
+    u = U.generate_big(rng)
+    plan = [{'op': 'add', 'res': 'r1'}, {'op': 'add', 'res': 'r0'},
+            {'op': 'add_ili', 'file': 'ili0'}, {'op': 'remove', 'spec': 'bige:1'},
+            {'op': 'add', 'res': 'r0', 'route': 'gz'}]
+    return u, plan
+
+
 def build(seed):
+    if subseed(seed, 'big').random() < 0.001:
+        return build_big(seed)
     rng = subseed(seed, 'universe')
     u = U.generate(rng)
     prng = subseed(seed, 'plan')
     swarm = {'routes': prng.random() < 0.7, 'batch': prng.random() < 0.7,
-             'short_reads': prng.random() < 0.5}
+             'short_reads': prng.random() < 0.5, 'external': prng.random() < 0.08}
     plan = P.history(prng, u, prng.randint(6, 14), swarm)
     return u, plan
 
